@@ -44,6 +44,9 @@ def main():
                 out = sh("cd %s && ./check %s %s" % (VERIF, p, tier)).stdout.decode("utf-8", "replace")
                 viol = [l for l in out.splitlines() if l.startswith("VIOLATION property=%s " % p)]
                 nf = [l for l in viol if l.endswith("no-failing-input-found")]
+                if not viol and meta.get("expect_known"):
+                    caught.append("%s:same-known-finding (%d KNOWN-FINDING lines, exit 0) (%.0fs)" % (p, sum(1 for l in out.splitlines() if l.startswith("KNOWN-FINDING")), time.time() - t0))
+                    continue
                 caught.append("%s:%s%s (%.0fs)" % (p, "CAUGHT" if viol else "missed", " (%d with input, %d without)" % (len(viol) - len(nf), len(nf)) if viol else "", time.time() - t0))
             rows.append((sid, meta["property"], " ".join(caught), meta.get("needs", "")[:80]))
         finally:
